@@ -142,8 +142,21 @@ func (nc *nilCtx) mayBeNil0(v ssa.Value) bool {
 	case *ssa.Convert:
 		return false
 	case *ssa.Phi:
-		for _, e := range x.Edges {
+		for i, e := range x.Edges {
 			if nc.mayBeNil(e) {
+				// `if conf == nil { conf = new(T) }`: on the edge that carries the old value it was found non-nil
+				if i < len(x.Block().Preds) {
+					pe := fx.path(e)
+					known := false
+					for _, a := range fx.AtomsOnEdge(x.Block().Preds[i], x.Block()) {
+						if a.Op == "NIL" && a.Neg && a.A == pe {
+							known = true
+						}
+					}
+					if known {
+						continue
+					}
+				}
 				return nc.note(v, nc.why[e])
 			}
 		}
